@@ -31,7 +31,8 @@ vars == <<doc, skip, prev>>
 (* statements:
    [t |-> "import", form |-> "plain" | "as" | "from" | "fromas", module |-> path, alias |-> "" or name]
         for from-forms `module` is the full path of the imported module (from pk import mod -> <<"pk","mod">>)
-   [t |-> "bind", sel |-> sequence of components, param, val, ref |-> <<>> or the selector of a reference in the value]
+   [t |-> "bind", scope |-> "" or a scope name, sel |-> sequence of components, param, val,
+        ref |-> <<>> or the selector of a reference in the value, rscope |-> the scope written on that reference]
    [t |-> "enable"]  (a second, late enabling statement: an error)  *)
 
 GetAttr(node, name) ==
@@ -126,9 +127,12 @@ ApplyStmt(st, s) ==
          ELSE IF SkipSel(v.st, s.sel) THEN [status |-> "ok", st |-> v.st]           \* the statement is dropped
          ELSE IF c.status # "ok" THEN [status |-> c.status, st |-> v.st]
          ELSE [status |-> "ok",
-               st |-> [c.st EXCEPT !.cfg = { b \in @ : ~(b.obj = c.obj /\ b.param = s.param) }
-                                          \cup {[obj |-> c.obj, param |-> s.param,
-                                                 val |-> IF s.ref # <<>> /\ SkipSel(st, s.ref) THEN "unk" ELSE s.val]}]]
+               st |-> [c.st EXCEPT !.cfg = { b \in @ : ~(b.scope = s.scope /\ b.obj = c.obj /\ b.param = s.param) }
+                                          \cup {[scope |-> s.scope, obj |-> c.obj, param |-> s.param,
+                                                 val |-> IF s.ref # <<>> /\ SkipSel(st, s.ref) THEN "unk" ELSE s.val,
+                                                 \* a reference is a reference to the object its name denoted, under the scope written on it
+                                                 ref |-> IF s.ref # <<>> /\ ~SkipSel(st, s.ref) THEN v.obj ELSE "none",
+                                                 rscope |-> IF s.ref # <<>> /\ ~SkipSel(st, s.ref) THEN s.rscope ELSE ""]}]]
 
 RECURSIVE Run(_, _, _)
 Run(st, d, k) ==
@@ -146,8 +150,9 @@ RunNoSkip(st, d, k) ==       \* the earlier file is a valid one and was parsed w
                                  !.source = { e \in @ : e.name # BoundName(s) } \cup {[name |-> BoundName(s), stmt |-> s]},
                                  !.loaded = @ \cup LoadedBy(s.module), !.imports = Append(@, s)], d, k + 1)
        ELSE LET c == Configurable(st, s.sel) IN
-            RunNoSkip([c.st EXCEPT !.cfg = { b \in @ : ~(b.obj = c.obj /\ b.param = s.param) }
-                                           \cup {[obj |-> c.obj, param |-> s.param, val |-> s.val]}], d, k + 1)
+            RunNoSkip([c.st EXCEPT !.cfg = { b \in @ : ~(b.scope = s.scope /\ b.obj = c.obj /\ b.param = s.param) }
+                                           \cup {[scope |-> s.scope, obj |-> c.obj, param |-> s.param, val |-> s.val,
+                                                  ref |-> "none", rscope |-> ""]}], d, k + 1)
 PrevState == RunNoSkip(EmptyState, prev, 1)
 Result == Run(NewFile(PrevState), doc, 1)
 
@@ -190,7 +195,7 @@ C19_ExactObject ==
       n == IF r.status = "ok" THEN Len(doc) ELSE r.at - 1
   IN \A k \in 1..n : (doc[k].t = "bind" /\ ~PyDropped(doc, k)) =>
         /\ PyDenotes(doc, k) # "none"
-        /\ \E b \in r.st.cfg : b.obj = PyDenotes(doc, k) /\ b.param = doc[k].param
+        /\ \E b \in r.st.cfg : b.obj = PyDenotes(doc, k) /\ b.param = doc[k].param /\ b.scope = doc[k].scope
 C19_SameConfigurable ==
   LET r == Result IN
   /\ \A a, b \in r.st.registry : a.obj = b.obj => a = b
@@ -209,13 +214,16 @@ C19_Errors ==
 C19_NothingElse ==
   LET r == Result
       n == IF r.status = "ok" THEN Len(doc) ELSE r.at - 1
-      fromDoc(b) == \E k \in 1..n : doc[k].t = "bind" /\ PyDenotes(doc, k) = b.obj /\ doc[k].param = b.param
+      fromDoc(b) == \E k \in 1..n : doc[k].t = "bind" /\ PyDenotes(doc, k) = b.obj /\ doc[k].param = b.param /\ doc[k].scope = b.scope
         /\ b.val = (IF PyRefDropped(doc, k) THEN "unk" ELSE doc[k].val)
-        /\ \A j \in (k + 1)..n : ~(doc[j].t = "bind" /\ PyDenotes(doc, j) = b.obj /\ doc[j].param = b.param)
+        /\ b.ref = (IF doc[k].ref # <<>> /\ ~PyRefDropped(doc, k) THEN PyRefDenotes(doc, k) ELSE "none")
+        /\ b.rscope = (IF doc[k].ref # <<>> /\ ~PyRefDropped(doc, k) THEN doc[k].rscope ELSE "")
+        /\ \A j \in (k + 1)..n : ~(doc[j].t = "bind" /\ PyDenotes(doc, j) = b.obj /\ doc[j].param = b.param /\ doc[j].scope = b.scope)
       \* what the earlier file bound stays, unless this file binds the same parameter of the same object
-      fromPrev(b) == b \in PrevState.cfg /\ \A k \in 1..n : ~(doc[k].t = "bind" /\ ~PyDropped(doc, k) /\ PyDenotes(doc, k) = b.obj /\ doc[k].param = b.param)
+      fromPrev(b) == b \in PrevState.cfg /\ \A k \in 1..n : ~(doc[k].t = "bind" /\ ~PyDropped(doc, k) /\ PyDenotes(doc, k) = b.obj
+                                                              /\ doc[k].param = b.param /\ doc[k].scope = b.scope)
   IN /\ \A b \in r.st.cfg : fromDoc(b) \/ fromPrev(b)
-     /\ \A b \in PrevState.cfg : (\E c \in r.st.cfg : c.obj = b.obj /\ c.param = b.param)
+     /\ \A b \in PrevState.cfg : (\E c \in r.st.cfg : c.obj = b.obj /\ c.param = b.param /\ c.scope = b.scope)
 
 Init == doc = <<>> /\ skip \in SkipForms /\ prev \in PrevDocs
 Next == Len(doc) < MaxStmts /\ \E t \in Templates : doc' = Append(doc, t) /\ UNCHANGED <<skip, prev>>
